@@ -1,6 +1,305 @@
-import Chewing.Model.Editor
+import Chewing.Proofs.C01Editor
 /-!
-# C01 — no call sequence, key or configuration can crash or hang the engine (work in progress)
+# C01 — no call sequence, key or configuration can crash or hang the engine
+
+Over the executable editor model (`Model/Editor.lean`: every `unwrap` / `expect` / index / slice / `assert!`
+/ checked-arithmetic site of `src/editor/mod.rs`, `selection/{phrase,symbol}.rs`, `composition_editor.rs`
+and `conversion/mod.rs` is a value `Outcome.panic site`, every loop takes fuel and reports
+`Outcome.outOfFuel`) "crash" = `.panic _`, "hang" = `.outOfFuel`.
+
+## What is proved (for EVERY environment `env` satisfying the explicit hypotheses `EnvOK env G`)
+
+* `EditorInv` — the reachable-state invariant: composition invariant of C04 (`CompInv`, one character
+  per selected symbol, selections over syllables only), `cursor ≤ len` (C05), **every buffered syllable
+  has a word under every active lookup strategy** (the engine's, the editor's, an open selector's — the
+  mechanism the property's anchors name), prefix lookup only together with the prefix-matching engine,
+  `candidates_per_page > 0`, and for an open candidate list: the phrase selector's range is a non-empty run
+  of syllables inside the buffer and its composition is the editor's; a replacing symbol list sits on a
+  non-syllable symbol.
+* `C01_partial` — one operation: from a state satisfying `EditorInv`, an operation that is not in the
+  known class (`Known`: F02 / F03, state based) and is `Covered` returns a value (no panic, fuel not
+  exhausted) and `EditorInv` holds again.  `C01_partial_run` lifts it to every operation list.
+  `no_panic`, `no_hang` restate the conclusion in the words of the property.
+* `C01_full` — the statement without the `Known` exclusion — is **refuted** (`C01_full_refuted`) by the
+  F02 history (type a partial syllable under the fuzzy engine, switch to the standard engine, Enter) and
+  the F03 history (`f03_history_panics`: type a syllable, remove its only word, Enter) in a small
+  environment satisfying `EnvOK`.
+* `initial_inv` — a fresh editor satisfies `EditorInv`.
+
+## Coverage (`Covered`) — level: partial
+
+Covered: every key event (all key codes / modifiers / options) in the states `Entering`,
+`EnteringSyllable` and `Highlighting` including the keys that OPEN a candidate list (`PhraseSelector::init`
+terminates, selector invariant established), auto-commit, dictionary flush; and every other entry point
+in every state: `start_selecting`, `cancel_selecting`, `commit`, `clear`, `ack`,
+`clear_syllable_editor`, `set_editor_options`, `set_syllable_editor`, `set_conversion_engine`,
+`learn_phrase`, `unlearn_phrase`; `select(n)` / `jump_*` outside a candidate list.
+**Not yet covered by a theorem** (`C01_target` is the statement without `Covered`): key events,
+`select(n)` and `jump_to_*_selection_point` **while a candidate list is open** (`Selecting::next`,
+`PhraseSelector::next` / `*_selection_point`, `SymbolSelector`); these are covered by the correspondence
+(model = code per step, including which steps panic) and the crash campaigns only.
+
+The conversion engines enter through `EnvOK.convert_ok`, which is C03's `nonempty_result` + `alt_chain` +
+`one_char_per_symbol` + `fuel_suffices` (proved there for the engine model under `CompValid`, a word per
+syllable and `ScoreBound`); `compValid_of_cinv` proves that `EditorInv` implies C03's `CompValid`.
 -/
 namespace Chewing.C01
+open Chewing Chewing.C04 Chewing.C05 Chewing.C06
+
+variable {D L : Type} {env : Env D L} {G : D → Prop}
+
+/-- **C01, one operation (partial).**  `hv`: arguments the C layer validates; `hk`: not the known class
+    F02/F03; `hc`: not a key / `select` / `jump` under an open candidate list (not yet proved). -/
+theorem C01_partial (hE : EnvOK env G) (e : Editor D L) (op : Op L) (hi : EditorInv env G e) (hv : OpValid op)
+    (hk : ¬ Known env e op) (hc : Covered e op) :
+    ∃ e', e.apply env op = .ok e' ∧ EditorInv env G e' :=
+  apply_ok hE hi op hv hk hc
+
+/-- … in the words of the property: the call does not panic … -/
+theorem no_panic (hE : EnvOK env G) (e : Editor D L) (op : Op L) (hi : EditorInv env G e) (hv : OpValid op)
+    (hk : ¬ Known env e op) (hc : Covered e op) (site : String) : e.apply env op ≠ .panic site :=
+  (apply_ok hE hi op hv hk hc).not_panic.1 site
+
+/-- … and every loop finishes within the fuel the model supplies (linear in the buffer length) -/
+theorem no_hang (hE : EnvOK env G) (e : Editor D L) (op : Op L) (hi : EditorInv env G e) (hv : OpValid op)
+    (hk : ¬ Known env e op) (hc : Covered e op) : e.apply env op ≠ .outOfFuel :=
+  (apply_ok hE hi op hv hk hc).not_panic.2
+
+/-- a history all of whose steps are valid, outside the known class and covered (evaluated along the run) -/
+def Allowed (env : Env D L) : Editor D L → List (Op L) → Prop
+  | _, [] => True
+  | e, op :: ops => OpValid op ∧ ¬ Known env e op ∧ Covered e op ∧ ∀ e', e.apply env op = .ok e' → Allowed env e' ops
+
+/-- **C01, every history (partial).** -/
+theorem C01_partial_run (hE : EnvOK env G) (ops : List (Op L)) :
+    ∀ e : Editor D L, EditorInv env G e → Allowed env e ops → ∃ e', e.run env ops = .ok e' ∧ EditorInv env G e' := by
+  induction ops with
+  | nil => intro e hi _; exact ⟨e, rfl, hi⟩
+  | cons op ops ih =>
+    intro e hi ha
+    obtain ⟨hv, hk, hc, hrest⟩ := ha
+    obtain ⟨e1, h1, hi1⟩ := apply_ok hE hi op hv hk hc
+    obtain ⟨e2, h2, hi2⟩ := ih e1 hi1 (hrest e1 h1)
+    exact ⟨e2, by simp only [Editor.run]; rw [h1]; exact h2, hi2⟩
+
+/-- a fresh editor (empty buffer, any dictionary that is well formed, any layout, coupled options) satisfies the invariant -/
+theorem initial_inv (sh : Shared D L) (hg : G sh.dict) (hcom : sh.com = {})
+    (hcp : sh.options.lookupStrategy = .fuzzyPartialPrefix → engStrategy sh.engine = .fuzzyPartialPrefix)
+    (hpp : 0 < sh.options.candidatesPerPage) : EditorInv env G { shared := sh, state := .entering } := by
+  refine ⟨⟨hg, hcom ▸ cedInv_new, ?_, hcp, hpp⟩, trivial⟩
+  intro c hc
+  rw [hcom] at hc
+  cases hc
+
+/-- the statement the package aims at: `C01_partial` without the `Covered` restriction -/
+def C01_target : Prop :=
+  ∀ (D L : Type) (env : Env D L) (G : D → Prop), EnvOK env G → ∀ (e : Editor D L) (op : Op L),
+    EditorInv env G e → OpValid op → ¬ Known env e op → ∃ e', e.apply env op = .ok e' ∧ EditorInv env G e'
+
+/-- the property as worded, over histories: from a fresh state NO sequence of (valid) public operations
+    panics or hangs -/
+def C01_full : Prop :=
+  ∀ (D L : Type) (env : Env D L) (G : D → Prop), EnvOK env G → ∀ (e : Editor D L), EditorInv env G e →
+    ∀ ops : List (Op L), (∀ op ∈ ops, OpValid op) → ∃ e', e.run env ops = .ok e'
+
+/-! ## Refutation of the full statement (F02, F03) in a small environment that satisfies `EnvOK` -/
+
+/-- one interval per symbol -/
+def singles : List Sym → Nat → List Interval
+  | [], _ => []
+  | s :: r, i =>
+    { start := i, stop := i + 1, isPhrase := s.isSyl, text := [match s with | .syl x => x | .chr x => x] } :: singles r (i + 1)
+
+theorem singles_chain (l : List Sym) : ∀ i, Conv.IvChain i (i + l.length) (singles l i) := by
+  induction l with
+  | nil => intro i; simp [singles, Conv.IvChain]
+  | cons s r ih =>
+    intro i
+    refine ⟨rfl, by show i < i + 1; omega, ?_⟩
+    have := ih (i + 1)
+    simp only [List.length_cons]
+    rw [show i + (r.length + 1) = i + 1 + r.length by omega]
+    exact this
+
+theorem singles_text (l : List Sym) : ∀ i, ∀ iv ∈ singles l i, iv.text.length = iv.stop - iv.start := by
+  induction l with
+  | nil => intro i iv h; cases h
+  | cons s r ih =>
+    intro i iv h
+    simp only [singles, List.mem_cons] at h
+    rcases h with rfl | h
+    · show 1 = i + 1 - i; omega
+    · exact ih (i + 1) iv h
+
+/-- dictionary = the syllables that have a word; syllable `0` is a *partial* syllable: it has a word by
+    prefix matching only -/
+def toyLookup (d : List Nat) (k : List Nat) (s : Strategy) : List Phrase :=
+  match k with
+  | [c] => if d.contains c || (s == .fuzzyPartialPrefix && c == 0) then [{ text := [c], freq := 1 }] else []
+  | _ => []
+
+def toyHas (d : List Nat) (k : EngineKind) : Sym → Bool
+  | .syl x => (toyLookup d [x] (engStrategy k)).head?.isSome
+  | .chr _ => true
+
+/-- layout: key 32 types the partial syllable `0`, key 33 the syllable `3` (two key presses each) -/
+def toyEnv : Env (List Nat) Nat where
+  lookupAll := toyLookup
+  userLookupAll := toyLookup
+  addPhrase d _ _ := some d
+  updatePhrase d _ _ _ _ := d
+  removePhrase d k _ := match k with
+    | [c] => d.erase c
+    | _ => d
+  reopenFlush d := d
+  convert k d c := if c.symbols.all (toyHas d k) then .ok [singles c.symbols 0] else .panic "shortest-path-unwrap"
+  estimate _ f _ := .ok f
+  keyPress l ev := if l == 0 then (if ev.code == 32 then (.absorb, 1) else if ev.code == 33 then (.absorb, 4) else (.keyError, 0))
+                   else (.commit, l)
+  fuzzyKeyPress l ev := if l == 0 then (if ev.code == 32 then (.absorb, 1) else if ev.code == 33 then (.absorb, 4) else (.keyError, 0))
+                        else (.commit, l)
+  removeLast _ := 0
+  clearSyl _ := 0
+  sylIsEmpty l := l == 0
+  read l := l - 1
+  altSyllables _ _ := []
+
+theorem toyLookup_mem {d : List Nat} {k : List Nat} {s : Strategy} {p : Phrase} (h : p ∈ toyLookup d k s) :
+    p.text.length = k.length := by
+  unfold toyLookup at h
+  split at h
+  · split at h
+    · simp only [List.mem_cons, List.not_mem_nil, or_false] at h; subst h; rfl
+    · cases h
+  · cases h
+
+theorem toyEnv_ok : EnvOK toyEnv (fun _ => True) where
+  wf := fun d _ k s p hp => toyLookup_mem hp
+  std_fuzzy := by
+    intro d c _ h
+    have hf : (Strategy.standard == Strategy.fuzzyPartialPrefix) = false := rfl
+    simp only [Env.hasPhrase, toyEnv, toyLookup] at h ⊢
+    by_cases hc : c ∈ d
+    · simp [hc]
+    · simp [hc, hf] at h
+  add_good := fun _ _ _ _ _ _ _ => trivial
+  add_mono := by intro d k p d' h c s hh; simp only [toyEnv] at h; cases h; exact hh
+  update_good := fun _ _ _ _ _ _ _ => trivial
+  update_mono := fun _ _ _ _ _ _ _ hh => hh
+  flush_good := fun _ _ => trivial
+  flush_mono := fun _ _ _ hh => hh
+  remove_good := fun _ _ _ _ => trivial
+  convert_ok := by
+    intro k d c _ _ hw
+    have hall : c.symbols.all (toyHas d k) = true := by
+      rw [List.all_eq_true]
+      intro x hx
+      cases x with
+      | syl y => exact hw y hx
+      | chr y => rfl
+    simp only [toyEnv, hall, if_true]
+    refine .ok ⟨by simp, ?_⟩
+    intro p hp
+    simp only [List.mem_cons, List.not_mem_nil, or_false] at hp
+    subst hp
+    refine ⟨?_, singles_text _ 0⟩
+    have := singles_chain c.symbols 0
+    simpa using this
+  estimate_ok := fun _ f _ => ⟨f, rfl⟩
+
+/-- a fresh editor over the dictionary `d` with the fuzzy engine and prefix lookup (what
+    `chewing.conversion_engine = 2` configures) -/
+def fuzzyEditor (d : List Nat) : Editor (List Nat) Nat :=
+  { shared := { syl := 0, dict := d, engine := .fuzzy,
+                options := { lookupStrategy := .fuzzyPartialPrefix, conversionEngine := .fuzzy } } }
+
+/-- a fresh editor with the default (standard) engine -/
+def stdEditor (d : List Nat) : Editor (List Nat) Nat := { shared := { syl := 0, dict := d } }
+
+theorem fuzzyEditor_inv (d : List Nat) : EditorInv toyEnv (fun _ => True) (fuzzyEditor d) :=
+  initial_inv _ trivial rfl (fun _ => rfl) (by show (0 : Nat) < 10; omega)
+
+theorem stdEditor_inv (d : List Nat) : EditorInv toyEnv (fun _ => True) (stdEditor d) :=
+  initial_inv _ trivial rfl (fun h => by cases h) (by show (0 : Nat) < 10; omega)
+
+def keyH : KeyEvent := { index := 32, code := 32, unicode := 104 }
+def keyJ : KeyEvent := { index := 33, code := 33, unicode := 106 }
+def keyEnter : KeyEvent := { index := 50, code := KC.enter, unicode := 65533 }
+
+/-- **F02**: fuzzy engine, type the partial syllable, switch to the standard engine, Enter ⇒ the
+    conversion has no path (`shortest_path(..).unwrap()`) -/
+theorem f02_history_panics :
+    (fuzzyEditor []).run toyEnv [.key keyH, .key keyH, .setEngine .chewing, .key keyEnter] =
+      .panic "shortest-path-unwrap" := rfl
+
+/-- **F03**: type a syllable, remove its only word, Enter ⇒ same site -/
+theorem f03_history_panics :
+    (stdEditor [3]).run toyEnv [.key keyJ, .key keyJ, .unlearn [3] [3], .key keyEnter] =
+      .panic "shortest-path-unwrap" := rfl
+
+/-- **the full statement is false** (finding F02; F03 likewise) -/
+theorem C01_full_refuted : ¬ C01_full := by
+  intro h
+  obtain ⟨e', he⟩ := h _ _ toyEnv _ toyEnv_ok (fuzzyEditor []) (fuzzyEditor_inv [])
+    [.key keyH, .key keyH, .setEngine .chewing, .key keyEnter] (by intro op _; cases op <;> trivial)
+  rw [f02_history_panics] at he
+  cases he
+
+theorem ok_unique {α : Type} {r : Outcome α} {a b : α} (h1 : r = .ok a) (h2 : r = .ok b) : a = b :=
+  Outcome.ok.inj (h1.symm.trans h2)
+
+theorem allowed_cons {e : Editor D L} {op : Op L} {ops : List (Op L)} (h1 : OpValid op) (h2 : ¬ Known env e op)
+    (h3 : Covered e op) (h4 : ∀ e', e.apply env op = .ok e' → Allowed env e' ops) : Allowed env e (op :: ops) :=
+  ⟨h1, h2, h3, h4⟩
+
+theorem allowed_two_keys {e : Editor D L} {k1 k2 : KeyEvent} (h0 : e.state = .entering)
+    (h1 : ∃ x, e.apply env (.key k1) = .ok x ∧ x.state = .enteringSyllable) {rest : List (Op L)}
+    (hr : ∀ e1 e2, e.apply env (.key k1) = .ok e1 → e1.apply env (.key k2) = .ok e2 → Allowed env e2 rest) :
+    Allowed env e (.key k1 :: .key k2 :: rest) := by
+  refine allowed_cons trivial (fun h => h) (fun s hs => by rw [h0] at hs; cases hs) ?_
+  intro e1 he1
+  obtain ⟨x, hx, hst⟩ := h1
+  have := ok_unique hx he1
+  subst this
+  exact allowed_cons trivial (fun h => h) (fun s hs => by rw [hst] at hs; cases hs) (fun e2 he2 => hr x e2 he1 he2)
+
+/-- the engine switch of the F02 history is in the known class: the state right before it satisfies
+    the invariant, and `Known` holds of the switch -/
+theorem f02_is_known :
+    ∃ e, (fuzzyEditor []).run toyEnv [.key keyH, .key keyH] = .ok e ∧ EditorInv toyEnv (fun _ => True) e ∧
+      Known toyEnv e (.setEngine .chewing) := by
+  obtain ⟨e, he, hi⟩ := C01_partial_run toyEnv_ok [.key keyH, .key keyH] (fuzzyEditor []) (fuzzyEditor_inv [])
+    (allowed_two_keys rfl ⟨_, rfl, rfl⟩ (fun _ _ _ _ => trivial))
+  refine ⟨e, he, hi, ?_⟩
+  obtain ⟨e0, he0, hs0, hd0⟩ : ∃ e0, (fuzzyEditor []).run toyEnv [.key keyH, .key keyH] = .ok e0 ∧
+      e0.shared.com.inner.symbols = [.syl 0] ∧ e0.shared.dict = [] := ⟨_, rfl, rfl, rfl⟩
+  have := ok_unique he0 he
+  subst this
+  intro hk
+  have h0 := hk.1 0 (by rw [hs0]; exact List.mem_cons_self ..)
+  rw [hd0] at h0
+  exact absurd h0 (by decide)
+
+/-! ## Non-vacuity: the hypotheses are satisfiable and the covered histories are not trivial -/
+
+/-- a covered history that types a syllable with a word, opens its candidate list through the API,
+    closes it again and commits: allowed, so by `C01_partial_run` it returns and keeps the invariant -/
+example : ∃ e', (stdEditor [3]).run toyEnv [.key keyJ, .key keyJ, .startSelecting, .cancelSelecting, .commit] = .ok e' ∧
+    EditorInv toyEnv (fun _ => True) e' ∧ e'.shared.commitBuf = [3] := by
+  obtain ⟨e', he, hi⟩ := C01_partial_run toyEnv_ok [.key keyJ, .key keyJ, .startSelecting, .cancelSelecting, .commit]
+    (stdEditor [3]) (stdEditor_inv [3])
+    (allowed_two_keys rfl ⟨_, rfl, rfl⟩ (fun _ e2 _ _ =>
+      allowed_cons trivial (fun h => h) trivial (fun e3 _ =>
+        allowed_cons trivial (fun h => h) trivial (fun e4 _ =>
+          allowed_cons trivial (fun h => h) trivial (fun _ _ => trivial)))))
+  obtain ⟨e0, he0, hc0⟩ : ∃ e0, (stdEditor [3]).run toyEnv [.key keyJ, .key keyJ, .startSelecting, .cancelSelecting, .commit] = .ok e0 ∧
+      e0.shared.commitBuf = [3] := ⟨_, rfl, rfl⟩
+  have := ok_unique he0 he
+  subst this
+  exact ⟨_, he, hi, hc0⟩
+
+/-- the candidate list of that history really opens (so `PhraseSelector::init` is exercised) -/
+example : ∃ e' s, (stdEditor [3]).run toyEnv [.key keyJ, .key keyJ, .startSelecting] = .ok e' ∧ e'.state = .selecting s :=
+  ⟨_, _, rfl, rfl⟩
+
 end Chewing.C01
